@@ -26,7 +26,7 @@ let addr_id s =
 let () =
   let cases = read_lines Sys.argv.(1) in
   let impl = impl_table Sys.argv.(2) in
-  let n_tx = ref 0 and n_probe = ref 0 and n_edit = ref 0 and n_connlost = ref 0 and n_deferred = ref 0 and n_early = ref 0 in
+  let n_tx = ref 0 and n_probe = ref 0 and n_edit = ref 0 and n_connlost = ref 0 and n_deferred = ref 0 and n_early = ref 0 and n_due = ref 0 in
   List.iteri (fun k line ->
     let lines = impl_lines impl k in
     let fails = ref [] in
@@ -66,6 +66,21 @@ let () =
       let seen_ids = Hashtbl.create 16 in
       let retx = Hashtbl.create 16 in       (* ids transmitted more than once *)
       let pending_user = ref false in
+      (* probe liveness (model: C09_probe_liveness): virtual clock, retry time of each failed server
+         (time of its last failure callback + retry delay), probe queries outstanding (last QSTATE:
+         no token, no_retries set) *)
+      let chance, delay = match field cfgw "failover" with
+        | Some v -> (match split_on ',' v with
+            | [c; d] -> (try (int_of_string c, int_of_string d) with _ -> (10, 5000))
+            | _ -> (10, 5000))
+        | None -> (10, 5000) in
+      let clock_ms = ref (match field cfgw "clock" with Some v -> (try int_of_string v with _ -> 1000000) | None -> 1000000) in
+      let clock_us = ref 0 in
+      let now_pair () = (zi (!clock_ms / 1000), zi ((!clock_ms mod 1000) * 1000 + !clock_us)) in
+      let retry : (int, z * z) Hashtbl.t = Hashtbl.create 8 in
+      let qprobes : string list ref = ref [] in
+      let qtry : (int, int) Hashtbl.t = Hashtbl.create 8 in      (* id -> try_count, last QSTATE *)
+      let expect_probe : string option ref = ref None in
       (* requests other than send (search, gai, ...): their queries get their ids when they are
          transmitted; they are recognised by the first label of the question name, h<T> for
          token t<T> (generator convention), the first transmission of a (name, type) being the
@@ -165,6 +180,9 @@ let () =
               | Some a -> incr n_connlost; feed (OConnLost (zi a, true)) (Printf.sprintf "connection %s to 10.0.0.%d lost" sk a)
               | None -> ())
            | _ -> ())
+        | "CONNECT" :: _ :: _ :: rest when List.mem "rc=-1" rest && not (List.mem "errno=EAGAIN" rest || List.mem "errno=EINPROGRESS" rest || List.mem "errno=EWOULDBLOCK" rest) ->
+          (* see SOCKET fail below *)
+          bmon := None; expect_probe := None
         | "CONNECT" :: sk :: a :: _ ->
           (match addr_id a with
            | Some a -> Hashtbl.replace pend sk (a, ref false, ref false, ref false, ref false); refresh_pending ()
@@ -201,7 +219,22 @@ let () =
           pending_user := true; incr sends; incr live; Hashtbl.replace tok_kind t "send";
           (* query ids are handed out in order (idseq): this request gets the next one *)
           Hashtbl.replace tok_label t !next_id; Hashtbl.replace user_ids !next_id (); incr next_id
-        | "RET" :: _ -> pending_user := false
+        | "RET" :: _ ->
+          pending_user := false;
+          (match !expect_probe with
+           | Some d -> add_fail "probe-missing" d; expect_probe := None
+           | None -> ())
+        | "NOW" :: t :: _ ->
+          (match split_on '.' t with
+           | [ms; us] -> (try clock_ms := int_of_string ms; clock_us := int_of_string us with _ -> ())
+           | [ms] -> (try clock_ms := int_of_string ms; clock_us := 0 with _ -> ())
+           | _ -> ())
+        | ("SOCKET" :: "fail" :: _) ->
+          (* an attempt failed before anything was transmitted: it consumed a try without a TX
+             line (the budget monitor cannot follow), and a probe that was due has been attempted *)
+          bmon := None; expect_probe := None
+        | (("CONNECT" | "SENDTO") :: rest) when List.mem "rc=-1" rest && not (List.mem "errno=EAGAIN" rest || List.mem "errno=EINPROGRESS" rest || List.mem "errno=EWOULDBLOCK" rest) ->
+          bmon := None; expect_probe := None
         | "CB" :: t :: rest ->
           if !live > 0 then decr live;
           (* a send request completes with status 0 only through an accepted answer of the server
@@ -262,15 +295,70 @@ let () =
                        if !first then (if probe then !okp else !oku) else (first := true; false)
                      | _ -> false in
                    if deferred_ok then incr n_deferred;
-                   feed ~skip_mon:deferred_ok (OTx (nat_of_int id, zi a, probe)) (Printf.sprintf "TX id=%d -> 10.0.0.%d%s" id a (if probe then " (probe)" else ""))
+                   let first_tx = not (Hashtbl.mem retx id) in
+                   feed ~skip_mon:deferred_ok (OTx (nat_of_int id, zi a, probe)) (Printf.sprintf "TX id=%d -> 10.0.0.%d%s" id a (if probe then " (probe)" else ""));
+                   if probe then expect_probe := None
+                   else if first_tx && Hashtbl.find_opt qtry id = Some 0 && !pending_user && chance = 1 && field w "proto" = Some "udp" then begin
+                     (* the first attempt of a new request went to a server without failures and every draw
+                        says "probe" (chance 1): if some failed server is past its retry time and has no
+                        probe outstanding, a probe copy must follow before the call returns *)
+                     match !mon with
+                     | Some m ->
+                       (match find_addr (zi a) m.m_servers with
+                        | Some sv when iz sv.sv_fail = 0 ->
+                          let servers = List.map (fun s ->
+                              { s with sv_retry = (match Hashtbl.find_opt retry (iz s.sv_addr) with Some t -> t | None -> (zi 0, zi 0)) }) m.m_servers in
+                          let inflight = List.filter_map (fun sk ->
+                              match Hashtbl.find_opt conns sk with
+                              | Some (srv, _) ->
+                                (match List.assoc_opt srv !srvtab with
+                                 | Some pa -> Some { at_label = nat_of_int 0; at_server = zi pa; at_try = zi 0; at_err = zi 0; at_probe = true }
+                                 | None -> None)
+                              | None -> None) !qprobes in
+                          let ch = { ch_servers = servers; ch_rotate = m.m_rotate; ch_tries = zi tries; ch_chance = zi chance;
+                                     ch_delay = zi delay; ch_now = now_pair (); ch_inflight = inflight; ch_next_label = nat_of_int 0 } in
+                          (match probe_due ch servers with
+                           | Ok true ->
+                             incr n_due;
+                             expect_probe := Some (Printf.sprintf "op [%s]: TX id=%d -> 10.0.0.%d is the first attempt of a request on a server without failures, retry chance 1, a failed server is past its retry time (now %d.%03d ms) with no probe outstanding, yet no probe copy was sent; failures by callbacks [%s]"
+                               !cur_op id a !clock_ms !clock_us
+                               (String.concat "," (List.map (fun s -> Printf.sprintf "%d:%d:%s" (iz s.sv_addr) (iz s.sv_idx) (string_of_z s.sv_fail)) m.m_servers)))
+                           | _ -> ())
+                        | _ -> ())
+                     | None -> ()
+                   end
                  | None -> add_fail "srv-index" (Printf.sprintf "unknown srv index in %s" l)))
            | _ -> ())
         | "SERVERSTATE" :: a :: rest ->
           (match addr_id a, field rest "success" with
-           | Some a, Some "0" -> feed (OFail (zi a)) (Printf.sprintf "failure of 10.0.0.%d" a)
+           | Some a, Some "0" ->
+             (let (sec, usec) = now_pair () in
+              match c_timeadd (zi delay) sec usec with Ok t -> Hashtbl.replace retry a t | _ -> Hashtbl.remove retry a);
+             feed (OFail (zi a)) (Printf.sprintf "failure of 10.0.0.%d" a)
            | Some a, Some "1" -> ahead := false; feed (OGood (zi a)) (Printf.sprintf "success of 10.0.0.%d" a)
            | _ -> ())
-        | "QSTATE" :: rest when (match field rest "conns" with
+        | "QSTATE" :: rest when
+            ((match field rest "q" with
+              | Some q when String.length q >= 2 ->
+                let body = String.sub q 1 (String.length q - 2) in
+                qprobes := [];
+                List.iter (fun e -> match split_on '/' e with
+                  | [id; tok; sk; _; tr; _; _; noretry] ->
+                    (match int_of_string_opt id, int_of_string_opt tr with Some i, Some t -> Hashtbl.replace qtry i t | _ -> ());
+                    (match int_of_string_opt id with
+                     | Some id when tok <> "-" ->
+                       (* the library's own id of a request: corrects the prediction made at REQ
+                          (a probe copy that was never transmitted took an id unseen) *)
+                       if Hashtbl.find_opt tok_kind tok = Some "send" && Hashtbl.find_opt tok_label tok <> Some id then begin
+                         (match Hashtbl.find_opt tok_label tok with Some old -> Hashtbl.remove user_ids old | None -> ());
+                         Hashtbl.replace tok_label tok id; Hashtbl.replace user_ids id ();
+                         if id >= !next_id then next_id := id + 1
+                       end
+                     | Some _ when noretry = "1" && sk <> "-" -> qprobes := sk :: !qprobes
+                     | _ -> ())
+                  | _ -> ()) (if body = "" then [] else split_on ',' body)
+              | _ -> ());
+             match field rest "conns" with
                                  | Some c when String.length c >= 2 ->
                                    Hashtbl.reset conns;
                                    let body = String.sub c 1 (String.length c - 2) in
@@ -322,4 +410,4 @@ let () =
             (if !edits_inflight > 0 then "-editinflight" else if !edits > 0 then "-edit" else "") in
       Printf.printf "CASE %d %s\n" k cls;
       List.iter (fun (kind, s) -> Printf.printf "FAIL %d %s %s\n" k kind s) (List.rev !fails)) cases;
-  Printf.printf "STAT transmissions %d\nSTAT probes %d\nSTAT edits %d\nSTAT connections-lost %d\nSTAT deferred-tcp-writes %d\nSTAT successes-applied-at-completion %d\n" !n_tx !n_probe !n_edit !n_connlost !n_deferred !n_early
+  Printf.printf "STAT transmissions %d\nSTAT probes %d\nSTAT edits %d\nSTAT connections-lost %d\nSTAT deferred-tcp-writes %d\nSTAT successes-applied-at-completion %d\nSTAT probes-due %d\n" !n_tx !n_probe !n_edit !n_connlost !n_deferred !n_early !n_due
